@@ -37,6 +37,10 @@ def smooth_spec():
         'nu': st.integers(1, 4),
         'alpha': st.floats(-1.5, 2.5),
         'fseed': gen.SEED,
+        # dense random fields, or fields with only a few non-zero interior
+        # entries / a zero source (exact zeros in local right-hand sides)
+        'fkind': st.sampled_from(['dense', 'dense', 'sparse', 'single',
+                                  'zero_source']),
         'pyfunc': st.integers(0, 11).map(lambda k: k == 0),
     })
 
@@ -124,8 +128,23 @@ def case_smooth(spec, rec):
     kinds = ['jit'] + (['py'] if pyf else [])
     ind_min = 10.0**(fs['lgind'] - spec['model']['decades']/2)
 
-    def field(salt):
-        return gen.random_field(grid, spec['fseed'], freq, salt=salt)
+    fkind = spec.get('fkind', 'dense')
+    iint = np.flatnonzero(interior)
+
+    def field(salt, source=False):
+        f = gen.random_field(grid, spec['fseed'], freq, salt=salt)
+        if fkind == 'dense' or iint.size == 0:
+            return f
+        if fkind == 'zero_source' and not source:
+            return f
+        rng = gen.rng_of(spec['fseed'], 1000+salt)
+        k = 0 if (fkind == 'zero_source') else (
+            1 if fkind == 'single' else int(rng.integers(1, 7)))
+        keep = rng.choice(iint, size=min(k, iint.size), replace=False)
+        v = np.zeros_like(f.field)
+        v[keep] = f.field[keep]
+        f.field[:] = v
+        return f
 
     for kind in kinds:
         k = kind == 'py'
@@ -155,7 +174,7 @@ def case_smooth(spec, rec):
                             "tangential boundary values written")
 
         # (ii) last relaxed block is solved exactly ------------------------
-        src2 = field(32)
+        src2 = field(32, source=True)
         e2 = field(33)
         _smooth(emg3d, vm, src2, e2, nu, lr, k)
         if np.any(e2.field[~interior] != 0):
@@ -165,7 +184,9 @@ def case_smooth(spec, rec):
             raise Violation("non_finite"+sig, "smoother produced NaN/inf")
         res = src2.field - A @ e2.field
         scl = absA @ np.abs(e2.field) + np.abs(src2.field)
-        rs = np.abs(res)/(scl + 1e-3*scl.max())
+        den = scl + 1e-3*scl.max()
+        rs = np.divide(np.abs(res), den, out=np.zeros_like(den),
+                       where=den > 0)
         # the last sweep is over the last direction in x, y, z order
         blocks = _blocks(shape, dirs[-1:] if dirs else '')
         if blocks:
@@ -179,7 +200,8 @@ def case_smooth(spec, rec):
 
     # (iii) affinity ----------------------------------------------------------
     a = spec['alpha']
-    e1, e2, s1, s2 = field(41), field(42), field(43), field(44)
+    e1, e2 = field(41), field(42)
+    s1, s2 = field(43, source=True), field(44, source=True)
     ec = emg3d.Field(grid, frequency=freq)
     sc = emg3d.Field(grid, frequency=freq)
     ec.field[:] = a*e1.field + (1-a)*e2.field
@@ -217,6 +239,7 @@ def case_smooth(spec, rec):
     het = spec['model']['hetero'] != 'homog' and spec['model']['decades'] > .1
     nblocks = len(_blocks(shape, dirs[-1:] if dirs else ''))
     rec.cls(f"lr={lr}", f"nu={nu}", f"case={case}", f"widths={kind}",
+            f"fields={fkind}",
             f"laplace={fs['laplace']}", gen.regime(fs),
             f"mur={mur is not None}", f"eff_dirs='{dirs}'")
     if pyf:
